@@ -40,6 +40,9 @@ type filterCase struct {
 	// where the flag is documented to matter only together with selfAlign and must change nothing
 	// (PALS passes it for the second strand of every query).
 	Comp bool `json:"complement,omitempty"`
+	// Chunk: in-memory run size of the sorter the hits are pushed to (0 = 4096). Small values make
+	// the hit store spill to run files, in particular after an earlier query that stayed in memory.
+	Chunk int `json:"chunk,omitempty"`
 }
 
 // expand is a pure function of the seed: a fixed linear congruential sequence mapped to ACGT.
@@ -105,7 +108,11 @@ func runFilter(c filterCase, t, q []byte) ([]filter.Hit, error) {
 	}
 	ki.Build()
 	f := filter.New(ki, &filter.Params{WordSize: c.K, MinMatch: c.N, MaxError: c.E, TubeOffset: c.Off})
-	m, err := morass.New(filter.Hit{}, "flt", "", 1<<12, false)
+	chunk := c.Chunk
+	if chunk <= 0 {
+		chunk = 1 << 12
+	}
+	m, err := morass.New(filter.Hit{}, "flt", "", chunk, false)
 	if err != nil {
 		return nil, err
 	}
@@ -113,7 +120,9 @@ func runFilter(c filterCase, t, q []byte) ([]filter.Hit, error) {
 	if c.PreSeed != 0 && !c.Self {
 		pre := expand(c.PreSeed, c.PreLen)
 		// the earlier query shares stretches with the target so that it leaves k-mer counts behind
-		for i := 0; i+40 < len(pre) && i+40 < len(t); i += 97 {
+		// (in one case of three it shares nothing and produces few or no hits, so that a small hit
+		// store stays in memory for it and spills for the query proper)
+		for i := 0; c.PreSeed%3 != 0 && i+40 < len(pre) && i+40 < len(t); i += 97 {
 			copy(pre[i:i+40], t[(i*7)%(len(t)-40):])
 		}
 		if err := f.Filter(linear.NewSeq("pre", alphabet.BytesToLetters(pre), alphabet.DNA), false, false, m); err != nil {
@@ -360,6 +369,7 @@ func gen(t *rapid.T) filterCase {
 		c.PreSeed = rapid.Uint64Range(1, 1<<62).Draw(t, "pre-seed")
 		c.PreLen = rapid.IntRange(minLen, max(minLen, maxLen)).Draw(t, "pre-len")
 	}
+	c.Chunk = rapid.SampledFrom([]int{0, 0, 0, 0, 0, 1, 3, 16, 64}).Draw(t, "hit-store-chunk")
 	ns := rapid.IntRange(0, c.E).Draw(t, "nsubs")
 	seen := map[int]bool{}
 	for len(c.Subs) < ns {
@@ -402,6 +412,12 @@ func classes(c filterCase) []string {
 	}
 	if c.PreSeed != 0 {
 		l = append(l, "filter-reused-after-another-query")
+		if c.Chunk > 0 {
+			l = append(l, "hit-store-with-small-runs-reused")
+		}
+	}
+	if c.Chunk > 0 {
+		l = append(l, "hit-store-with-small-runs")
 	}
 	if c.T0 < 60 || c.Q0 < 60 {
 		l = append(l, "near-a-start")
